@@ -438,8 +438,8 @@ func (x *Decimal) Float(z *big.Float) *big.Float {
 		p = uint(max(int(math.Ceil(float64(x.prec)*log2_10)), 64))
 	}
 
-	// clear z
-	z.SetPrec(0)
+	// clear z (SetPrec(0) alone leaves an infinite z unchanged)
+	z.SetInt64(0).SetPrec(0)
 
 	switch x.form {
 	case zero:
